@@ -193,6 +193,24 @@ def _r2_run(doc, repo, verif, lines, clause, skipped):
             if fn in ('cat_get_processed_command', 'cat_search_command_by_name', 'cat_search_command_group_by_name', 'cat_search_variable_by_name', 'cat_init'):
                 return {'ran': False, 'reproduced': False, 'output': 'state injection is not implemented for pointer-returning / initialising API functions', 'recipe': 'state injection'}
             defs = [x for x in defs if not x.startswith('NATIVE_FN_')] + ['NATIVE_CALL=' + call[0][len('API_CALL='):]]
+            # the clause names the contract's parameters; bind each to the argument expression of the recorded call
+            try:
+                import re as _re
+                callx = call[0][len('API_CALL='):]
+                args, depth, cur = [], 0, ''
+                for ch in callx[callx.index('(') + 1:callx.rindex(')')]:
+                    if ch == ',' and depth == 0:
+                        args.append(cur); cur = ''
+                    else:
+                        depth += (ch == '(') - (ch == ')'); cur += ch
+                args.append(cur)
+                decl = _re.search(r'\b' + fn + r'\(([^)]*)\)', open(os.path.join(verif, 'contracts', 'api_contracts.h')).read())
+                params = [_re.findall(r'[A-Za-z_]\w*', x)[-1] for x in decl.group(1).split(',')] if decl else []
+                for prm, arg in list(zip(params, args))[1:]:      # the first parameter is the object (self)
+                    clause = _re.sub(r'(?<![\w.>])' + prm + r'\b', '(' + arg.strip() + ')', clause)
+                open(os.path.join(d, 'native_clause.inc'), 'w').write(clause + '\n')
+            except Exception:
+                pass
         exe = os.path.join(d, 'r2')
         cmd = ['clang', '-g', '-O0', '-fsanitize=address,undefined', '-fno-sanitize-recover=undefined', '-w', '-I' + d, '-I' + os.path.join(repo, 'src'),
                '-I' + os.path.join(verif, 'contracts'), '-I' + os.path.join(verif, 'harness')] + ['-D' + x for x in defs] + ['-DE0=G_ZERO', os.path.join(verif, 'harness', 'l1_native.c'), '-o', exe]
